@@ -132,13 +132,17 @@ def run_config(sh, fa, case, cfg, scratch, tag):
         # looked at (partly or wholly iterated) before they are copied
         def copy_blocks():
             from fastavro.write import Writer
+            # the first records go through write() and are still pending when the copied blocks arrive
+            k0 = min(len(recs), len(cfg["block_copy"]) % 3)
             donor = io.BytesIO()
-            fa.writer(donor, copy.deepcopy(js), list(recs), codec=cfg["block_copy"], sync_interval=cfg["interval"])
+            fa.writer(donor, copy.deepcopy(js), list(recs[k0:]), codec=cfg["block_copy"], sync_interval=cfg["interval"])
             donor.seek(0)
-            wkw = dict(codec=kw["codec"], sync_interval=kw["sync_interval"], metadata=kw["metadata"])
+            wkw = dict(codec=kw["codec"], sync_interval=max(kw["sync_interval"], 10**6) if k0 else kw["sync_interval"], metadata=kw["metadata"])
             if "sync_marker" in kw:
                 wkw["sync_marker"] = kw["sync_marker"]
             w = Writer(fo, schema_arg, **wkw)
+            for r in recs[:k0]:
+                w.write(r)
             for k, block in enumerate(fa.block_reader(donor)):
                 if k % 2 == 0:
                     it = iter(block)
